@@ -6,6 +6,8 @@ import (
 	"time"
 
 	"pgregory.net/rapid"
+
+	"verifharness/core"
 )
 
 // C18 at hub level (C18b of the plan): real connections produce the state changes. Once every
@@ -17,7 +19,11 @@ import (
 // connection: the loser's end is reported while the winner progresses), reconnects after cuts,
 // pending requests answered late, cancels and unregisters while a peer keeps knocking.
 func genC18Hub(t *rapid.T) Scenario {
-	switch rapid.IntRange(0, 3).Draw(t, "family") {
+	fam := rapid.IntRange(0, 4).Draw(t, "family")
+	if v := core.EnvInt("VERIF_C18_FAMILY", -1); v >= 0 {
+		fam = v // development aid: one scenario family only
+	}
+	switch fam {
 	case 0:
 		sc := genC05(t)
 		for i := range sc.Ops {
@@ -33,6 +39,31 @@ func genC18Hub(t *rapid.T) Scenario {
 				sc.Ops[i].K = "wait"
 			}
 		}
+		return sc
+	}
+	if fam == 3 {
+		// a double connection whose losing connection ends late: the hub with the higher SKI (0) dials
+		// over a slow link, so its connection C2 arrives when the connection C1 dialled by hub 1 has
+		// long completed; both hubs keep C2. With a logger that is slow for certain lines hub 1 is
+		// late in noticing C2 (it does not close C1 itself in time) and late in recording the end of
+		// C1, so that C1's last state change is reported after C2 has completed.
+		ms := func(label string, v ...int) int { return rapid.SampledFrom(v).Draw(t, label) }
+		sc := Scenario{N: 2, ZeroHigher: true}
+		sc.SlowLog = []LogRule{
+			{Match: "incoming connection request from", Ski: 0, Ms: ms("lateAccept", 0, 100, 250)},
+			{Match: "SHIP state changed to: 39", Ski: rapid.IntRange(0, 1).Draw(t, "errAt"), Ms: ms("lateError", 0, 300, 700, 1200)},
+		}
+		if rapid.Bool().Draw(t, "lateClose") {
+			sc.SlowLog = append(sc.SlowLog, LogRule{Match: "closing existing double connection", Ski: -1, Ms: ms("lateCloseMs", 50, 200)})
+		}
+		sc.Ops = []HubOp{{K: "slow", X: 0, Y: 1, Ms: ms("slowLink", 300, 600)},
+			{K: "register", X: 0, Y: 1, Conc: true}, {K: "register", X: 1, Y: 0, Conc: true},
+			{K: "appear", X: 0, Y: 1, Conc: true}, {K: "appear", X: 1, Y: 0, Conc: true, WaitMs: 2500},
+			{K: "slow", X: 0, Y: 1, Ms: 0}}
+		if rapid.Bool().Draw(t, "again") {
+			sc.Ops = append(sc.Ops, HubOp{K: "slow", X: 0, Y: 1, Ms: ms("slowLink2", 300, 600)}, HubOp{K: "cut", X: 0, Y: 1, Conc: true}, HubOp{K: "cut", X: 1, Y: 0, WaitMs: 2500})
+		}
+		sc.Ops = append(sc.Ops, HubOp{K: "wait", WaitMs: 500})
 		return sc
 	}
 	// double connections on purpose: both register and see each other at once, several times over
@@ -71,7 +102,7 @@ func lastPairing(n *Node, ski string) (last, count, distinct int) {
 
 func judgeC18Hub(sc Scenario) (key, msg string, nontrivial bool) {
 	r := Execute(sc)
-	defer r.F.Close()
+	defer r.Close()
 	if r.Herr != "" {
 		return "harness", r.Herr, false
 	}
